@@ -51,6 +51,7 @@ type ReplCase struct {
 	Script  []REv          `json:"script"`
 	SettleS int64          `json:"settle_s"`
 	DiskUs  int            `json:"disk_us,omitempty"` // max virtual latency of a state-changing I/O (all nodes)
+	Unit    *UnitScript    `json:"unit,omitempty"`    // C13 only: the receiving side on its own (c13unit_test.go)
 }
 
 func scriptString(s []REv) string {
@@ -267,6 +268,12 @@ func runC14(t *testing.T, c ReplCase) *kit.Result {
 			if converged[i] {
 				if convergedAt[i] > int64(10*time.Second) {
 					res.Probe("converged_after_more_than_10s")
+				}
+				if convergedAt[i] > int64(30*time.Second) {
+					res.Probe("converged_after_more_than_30s")
+				}
+				if convergedAt[i] > int64(60*time.Second) {
+					res.Probe("converged_after_more_than_60s")
 				}
 				continue
 			}
